@@ -405,7 +405,7 @@ def _where(e):
     return frames[-1] if frames else "?"
 
 
-class _Timeout(Exception):
+class _Timeout(BaseException):       # not an Exception: code under test must not swallow it
     pass
 
 
